@@ -35,7 +35,7 @@ type Step struct {
 }
 
 type History struct {
-	Kind  string // "htlc" | "random" | "farm" | "service"
+	Kind  string // "htlc" | "random" | "farm" | "service" | "abci"
 	Steps []Step
 }
 
@@ -49,6 +49,8 @@ func gen(r *lib.Rand, tier, stream string, i int) History {
 		return genFarm(r, tier)
 	case "service":
 		return genService(r, tier)
+	case "abci":
+		return genAbci(r, tier)
 	}
 	panic("unknown stream " + stream)
 }
@@ -63,6 +65,8 @@ func exec(h History) lib.Case {
 		return execFarm(h)
 	case "service":
 		return execService(h)
+	case "abci":
+		return execAbci(h)
 	}
 	panic("unknown history kind " + h.Kind)
 }
